@@ -174,3 +174,66 @@ def diff_traces(events):
                            "tag_mod": e["tag_mod"], "kept": e["kept"], "filter_all": filt.get(path, False)})
         out[tf] = tr
     return out
+
+
+def pairing_trace(case_events):
+    """Concatenated TracePairing input from {case id: [hook events]} (one segment per parsed file)."""
+    out = []
+    for cid, evs in case_events.items():
+        seg = []
+        for e in evs:
+            if e["ev"] == "push":
+                seg.append({"ev": "push", "line": e["line"], "col": e["col"], "depth": e["depth"], "open": 0, "blocks": 0})
+            elif e["ev"] == "pop":
+                seg.append({"ev": "pop", "line": e["line"], "col": e["col"], "depth": e["depth"], "open": 0, "blocks": 0})
+            elif e["ev"] == "err_end":
+                seg.append({"ev": "err_end", "line": 0, "col": 0, "depth": 0, "open": 0, "blocks": 0})
+            elif e["ev"] == "pair_done":
+                seg.append({"ev": "pair_done", "line": 0, "col": 0, "depth": 0, "open": e["open"], "blocks": e["blocks"]})
+                out.append({"ev": "reset", "line": 0, "col": 0, "depth": 0, "open": 0, "blocks": 0, "id": str(cid)})
+                out.extend(seg)
+                seg = []
+        # a parse that failed with err_end returns before pair_done
+        if seg:
+            out.append({"ev": "reset", "line": 0, "col": 0, "depth": 0, "open": 0, "blocks": 0, "id": str(cid)})
+            out.extend(seg)
+    for e in out:
+        e.setdefault("id", "")
+    return out
+
+
+def validate_pairing(chk, case_events, chunk=400, limit=4000):
+    """TracePairing over the recorded push/pop events of many parses (concatenated, chunked)."""
+    ids = sorted(case_events, key=str)[:limit]
+    traces = {}
+    for k in range(0, len(ids), chunk):
+        tr = pairing_trace({i: case_events[i] for i in ids[k:k + chunk]})
+        if tr:
+            traces["pairing-%d" % k] = tr
+    for tid, (ok, diag, states, rc_) in validate_many("TracePairing", traces, timeout=600).items():
+        chk.traces += sum(1 for e in traces[tid] if e["ev"] == "reset")
+        chk.states += states
+        chk.transitions += states
+        if not ok:
+            if rc_ not in (10, 12, 13) and "TRACE" not in (diag or "") and "nvariant" not in (diag or ""):
+                raise vlib.ToolError("TracePairing failed on %s rc=%s\n%s" % (tid, rc_, diag))
+            chk.violation("TracePairing rejects the recorded tag pairing: %s" % (diag or "")[:300], {"trace_chunk": tid})
+    chk.notes.setdefault("trace_runs", []).append({"spec": "TracePairing", "parses": sum(
+        1 for t in traces.values() for e in t if e["ev"] == "reset")})
+
+
+def scope_trace(events):
+    """Normalised TraceScope input for one run."""
+    out = []
+    parsed = []
+    for e in events:
+        if e["ev"] == "walk_file":
+            out.append({"ev": "walk_file", "path": e["path"], "allow": e["allow"], "ignore": e["ignore"], "in_diff": e["in_diff"], "parsed": []})
+        elif e["ev"] == "diff_file":
+            out.append({"ev": "diff_file", "path": e["path"], "allow": False, "ignore": e["ignore"], "in_diff": True, "parsed": []})
+        elif e["ev"] == "parse_file":
+            parsed.append(e["path"])
+    if not out:
+        return None
+    out.append({"ev": "scope_done", "path": "", "allow": False, "ignore": False, "in_diff": False, "parsed": sorted(set(parsed))})
+    return out
